@@ -280,6 +280,10 @@ class InterSystemRecurrenceNetwork(InteractingNetworks):
 
         #  Set diagonal of ISRM to zero to avoid self-loops
         ISRM.flat[::self.N + 1] = 0
+        #  Keep an already initialized network in step with the new matrix
+        self.threshold = threshold
+        if hasattr(self, "_mut_A"):
+            self.adjacency = ISRM
         return ISRM
 
     def set_fixed_recurrence_rate(self, density):
@@ -312,6 +316,10 @@ class InterSystemRecurrenceNetwork(InteractingNetworks):
 
         #  Set diagonal of ISRM to zero to avoid self-loops
         ISRM.flat[::self.N + 1] = 0
+        #  Keep an already initialized network in step with the new matrix
+        self.threshold = None
+        if hasattr(self, "_mut_A"):
+            self.adjacency = ISRM
         return ISRM
 
     #
